@@ -287,6 +287,7 @@ class FetchStream(Stream):
     """A case is run as a plan: a list of steps
          {"master": ref, "sources": [ref, ...], "diff": bool, "track": bool}
        ref = "m"            the master parsed from case["m"]
+             "md"           a fresh parse of the master with every disabled object removed
              ["s", i]       source i parsed from case["s"][i] (one object per case: marks persist over steps)
              ["sd", i]      a fresh parse of source i with every disabled object removed
              ["t", text]    a fresh parse of a literal text
@@ -312,6 +313,8 @@ class FetchStream(Stream):
     def _resolve(self, ref, case, env_objs, results):
         if ref == "m":
             return env_objs["m"]
+        if ref == "md":
+            return strip_disabled_objs(self.fp.parse(input_string=case["m"]))
         k, v = ref
         if k == "s":
             return env_objs["s"][v]
@@ -484,8 +487,11 @@ def gen_master_items(rng, depth, budget, floats=False, dup=True):
         if budget[0] <= 0:
             break
         budget[0] -= 1
-        if dup and used and rng.random() < 0.12:
-            name = rng.choice(used)          # deliberately duplicated sibling name
+        force_kind = None
+        if dup and used and rng.random() < 0.08:
+            name = rng.choice(used)          # deliberately duplicated sibling name, mostly of the same kind
+            if rng.random() < 0.7:
+                force_kind = [it[0] for it in items if it[1] == name][0]
         else:
             free = [x for x in NAMES if x not in used] or NAMES
             name = rng.choice(free)
@@ -500,7 +506,10 @@ def gen_master_items(rng, depth, budget, floats=False, dup=True):
             attrs["expert_level"] = rng.choice(["0", "1", "2", "3"])
         if rng.random() < 0.08:
             attrs["help"] = rng.choice(['"some help"', "h"])
-        if depth < 2 and rng.random() < (0.34 if depth == 0 else 0.28):
+        want_scope = depth < 2 and rng.random() < (0.34 if depth == 0 else 0.28)
+        if force_kind is not None:
+            want_scope = force_kind == "s" and depth < 2
+        if want_scope:
             item = ["s", name, dis, attrs, gen_master_items(rng, depth + 1, budget, floats, dup)]
         else:
             tkey = rng.choice(FLOAT_TYPES if floats else PLAIN_TYPES)
@@ -571,8 +580,16 @@ def master_paths(items, prefix=()):
 VAR_FORMS = ["$%s", "$(%s)", "x$(%s)", '"$%s"', "'$%s'", "$%s.5", "$(%s) 1"]
 
 
-def gen_assignments(rng, paths, nvars):
+PROFILES = {
+    # cumulative thresholds: repeat, hit, misspelt, wrongly nested, clash, unknown scope, empty scope instance, (rest: variable)
+    "shape": [0.10, 0.66, 0.75, 0.82, 0.845, 0.89, 0.94],
+    "unused": [0.10, 0.48, 0.66, 0.80, 0.815, 0.90, 0.94],
+}
+
+
+def gen_assignments(rng, paths, nvars, profile="shape"):
     """A source as a list of assignments [components, value or None (scope), disabled, disabled prefix depth]."""
+    T = PROFILES[profile]
     out = []
     defs = [(p, it) for p, it in paths if it[0] == "d"]
     scopes = [(p, it) for p, it in paths if it[0] == "s"]
@@ -581,13 +598,13 @@ def gen_assignments(rng, paths, nvars):
         r = rng.random()
         dis = 1 if rng.random() < 0.08 else 0
         disup = rng.randint(1, 2) if rng.random() < 0.05 else 0
-        if out and r < 0.10:
+        if out and r < T[0]:
             p, v, _, _ = rng.choice(out)            # repeated
             if v is not None and rng.random() < 0.5:
                 v = rng.choice(["1", "x", "None", v])
             out.append([list(p), v, dis, disup])
             continue
-        if defs and r < 0.62:
+        if defs and r < T[1]:
             p, it = rng.choice(defs)
             _, _, good, bad = TYPES[it[5]]
             q = rng.random()
@@ -598,30 +615,30 @@ def gen_assignments(rng, paths, nvars):
                 sib = [(p2, i2) for p2, i2 in defs if p2[:-1] == p[:-1] and p2 != p]
                 for p2, i2 in sib[:rng.randint(0, 2)]:
                     out.append([list(p2), rng.choice(TYPES[i2[5]][2]), 0, 0])
-        elif defs and r < 0.72:                      # misspelt
-            p, it = rng.choice(defs + scopes) if scopes else rng.choice(defs)
-            p = list(p)
-            i = rng.randrange(len(p))
-            p[i] = rng.choice([p[i] + "x", rng.choice(NAMES), "zz"])
-            out.append([p, rng.choice(["1", "x", "None"]), dis, disup])
-        elif defs and r < 0.80:                      # wrongly nested
+        elif defs and r < T[2]:                      # misspelt
             p, it = rng.choice(defs)
             p = list(p)
-            if len(p) > 1 and rng.random() < 0.5:
+            i = rng.randrange(len(p))
+            p[i] = rng.choice([p[i] + "x", "zz", "q" + p[i]])
+            out.append([p, rng.choice(["1", "x", "None"]), dis, disup])
+        elif defs and r < T[3]:                      # wrongly nested (never onto another master path's kind clash by design: extra unknown level)
+            p, it = rng.choice(defs)
+            p = list(p)
+            if len(p) > 1 and rng.random() < 0.4:
                 del p[rng.randrange(len(p) - 1)]
             else:
-                p.insert(rng.randrange(len(p)), rng.choice(NAMES))
+                p.insert(rng.randrange(len(p)), rng.choice(["zz", "q", "q", rng.choice(NAMES)]))
             out.append([p, rng.choice(TYPES[it[5]][2]), dis, disup])
-        elif r < 0.85 and (defs or scopes):           # scope / definition clash
+        elif r < T[4] and (defs or scopes):           # scope / definition clash
             if scopes and rng.random() < 0.5:
                 p, it = rng.choice(scopes)
                 out.append([list(p), rng.choice(["1", "x"]), dis, disup])         # a value given to a scope
             elif defs:
                 p, it = rng.choice(defs)
                 out.append([list(p) + [rng.choice(NAMES)], "1", dis, disup])      # a scope where a definition is
-        elif r < 0.90:                                # unknown scope block
+        elif r < T[5]:                                # unknown scope block
             out.append([[rng.choice(["zz", "q"]), rng.choice(NAMES)], rng.choice(["1", "x"]), dis, disup])
-        elif r < 0.94 and scopes:                     # empty scope instance
+        elif r < T[6] and scopes:                     # empty scope instance
             p, it = rng.choice(scopes)
             out.append([list(p), None, dis, disup])
         elif defs and nvars:                          # $variable
@@ -662,25 +679,25 @@ def render_source(items, ind=""):
     return "".join(out)
 
 
-def gen_source(rng, paths, nvars):
+def gen_source(rng, paths, nvars, profile="shape"):
     items = []
     if nvars:
         # variable definitions the assignments may refer to (possibly disabled: F10)
         for v in ["v", "w"][: rng.randint(0, 2)]:
             items.append(["d", v, 1 if rng.random() < 0.25 else 0, rng.choice(["3", "x y", "True", "$w", "y"])])
-    for comps, value, dis, disup in gen_assignments(rng, paths, nvars):
+    for comps, value, dis, disup in gen_assignments(rng, paths, nvars, profile):
         place(rng, items, comps, value, dis, disup)
     return render_source(items)
 
 
-def gen_case(rng, floats=False, variables=None, max_sources=4, dup=True):
+def gen_case(rng, floats=False, variables=None, max_sources=4, dup=True, profile="shape"):
     budget = [rng.randint(2, 11)]
     m = gen_master_items(rng, 0, budget, floats=floats, dup=dup)
     paths = master_paths(m)
     if variables is None:
         variables = rng.random() < 0.12
     ns = rng.choice([0, 1, 1, 1, 2, 2, 3, 4][: 4 + max_sources])
-    srcs = [gen_source(rng, paths, variables) for _ in range(ns)]
+    srcs = [gen_source(rng, paths, variables, profile) for _ in range(ns)]
     env = []
     if variables and rng.random() < 0.5:
         env = sorted([k, rng.choice(["E", "1", "e v"])] for k in set(rng.choice(["v", "w", "a"]) for _ in range(rng.randint(1, 2))))
@@ -691,8 +708,9 @@ def gen_case(rng, floats=False, variables=None, max_sources=4, dup=True):
 COMMON_TRUSTED = [
     "Modelled (Model/Fetch.v): scope.fetch (both branches, diff, the multiple double loop with its processed_as_str / "
     "template logic), master_active_objects, get_without_substitution with positions, definition.fetch / fetch_value / "
-    "fetch_diff, customized_copy / copy, assign_tmp + all_definitions(select_tmp=False) as a set of consumed positions; "
-    "variable substitution via Model/Vars.v, choice fetch via Model/Choice.v.",
+    "fetch_diff, customized_copy / copy, assign_tmp + all_definitions(select_tmp=False) as a set of consumed positions "
+    "(incl. the marks variable substitution leaves on its sources); variable substitution via Model/Vars.v, choice "
+    "fetch via Model/Choice.v.",
     "Oracle: canon = X.extract_format(source=Y).as_str(), recorded per call from the implementation run (wrappers on "
     "definition.extract_format / scope.extract_format) and looked up by the wire form of (X, Y); a missing key is reported "
     "as an internal error of the model, never as agreement.  Oracle: os.environ for the names the texts can look up.",
